@@ -40,6 +40,10 @@ type CliCase struct {
 	Lookup     bool `json:"lookup,omitempty"`     // `coca call -l`
 	TbsSort    bool `json:"tbsSort,omitempty"`    // `coca tbs -s`
 	GitOnly    bool `json:"gitOnly,omitempty"`    // pinned cases: only the `coca git` commands
+	// variants added later (zero values = the command lines before)
+	GoFiles  []jgen.File `json:"goFiles,omitempty"`  // a Go project under src/goproj: `coca_go analysis -p src/goproj` (godeps.json)
+	Remove   bool        `json:"remove,omitempty"`   // `coca call -r com.acme.` / `coca rcall -r com.acme.`
+	LongOpts bool        `json:"longOpts,omitempty"` // long option spellings: --path=src, --sort=type, --ignore=..., --top=N, --className=...
 }
 
 func genCli(t *rapid.T) CliCase {
@@ -67,6 +71,11 @@ func genCli(t *rapid.T) CliCase {
 	c.ApiVariant = rapid.IntRange(0, 2).Draw(t, "apiVariant")
 	c.Lookup = rapid.Bool().Draw(t, "callLookup")
 	c.TbsSort = rapid.Bool().Draw(t, "tbsSort")
+	if rapid.Bool().Draw(t, "withGoProject") {
+		c.GoFiles = genGoProject(t).Files
+	}
+	c.Remove = rapid.Bool().Draw(t, "removePackage")
+	c.LongOpts = rapid.Bool().Draw(t, "longOpts")
 	return c
 }
 
@@ -134,14 +143,18 @@ type cliRun struct {
 var cocaSlots = make(chan struct{}, 6)
 
 func (r *cliRun) coca(cwd string, env []string, args ...string) string {
+	return r.run("coca", cwd, env, args...)
+}
+
+func (r *cliRun) run(binary, cwd string, env []string, args ...string) string {
 	cocaSlots <- struct{}{}
-	res, err := cli.Run("coca", cwd, env, args...)
+	res, err := cli.Run(binary, cwd, env, args...)
 	<-cocaSlots
 	if err != nil {
-		panic("c08: cannot run the coca binary: " + err.Error())
+		panic("c08: cannot run the " + binary + " binary: " + err.Error())
 	}
 	if res.TimedOut {
-		panic("c08: coca " + strings.Join(args, " ") + " timed out")
+		panic("c08: " + binary + " " + strings.Join(args, " ") + " timed out")
 	}
 	return fmt.Sprintf("exit=%d\n", res.ExitCode) + stripTiming(res.Stdout)
 }
@@ -262,14 +275,30 @@ func oneCliRun(root string, c CliCase) []report {
 	_ = os.RemoveAll(filepath.Join(root, "coca_reporter"))
 	withTests := hasTestFiles(c.Java)
 
-	out := r.coca(root, nil, "analysis", "-p", "src")
+	// opt picks the spelling of an option with a value: `-p src` or `--path=src`
+	opt := func(short, long, value string) []string {
+		if c.LongOpts {
+			return []string{"--" + long + "=" + value}
+		}
+		return []string{"-" + short, value}
+	}
+	cmdline := func(parts ...[]string) []string {
+		var out []string
+		for _, p := range parts {
+			out = append(out, p...)
+		}
+		return out
+	}
+	out := r.coca(root, nil, cmdline([]string{"analysis"}, opt("p", "path", "src"))...)
 	r.add("analysis/stdout", out, multiset(strings.Split(out, "\n")))
 	r.jsonFile("analysis/identify.json", "identify.json", canonModelFile)
 	r.jsonFile("analysis/deps.json", "deps.json", canonModelFile)
 
 	groups := []func(r *cliRun){
 		func(r *cliRun) {
-			r.coca(root, nil, "bs", "-p", "src", "-s", "type")
+			r.coca(root, nil, cmdline([]string{"bs"}, opt("p", "path", "src"), opt("s", "sort", "type"))...)
+			// the code model of the bad-smell pass
+			r.jsonFile("bs/nodeInfos.json", "nodeInfos.json", canonModelFile)
 			r.jsonFile("bs -s type/bs.json", "bs.json", func(data string) string {
 				var groups map[string][]bs_domain.BadSmellModel
 				if err := json.Unmarshal([]byte(data), &groups); err != nil {
@@ -279,7 +308,7 @@ func oneCliRun(root string, c CliCase) []report {
 			})
 			if len(c.Java.Ignore) > 0 {
 				// the plain list with some kinds ignored (same report file: one run after the other)
-				r.coca(root, nil, "bs", "-p", "src", "-x", joinIgnore(c.Java.Ignore))
+				r.coca(root, nil, cmdline([]string{"bs"}, opt("p", "path", "src"), opt("x", "ignore", joinIgnore(c.Java.Ignore)))...)
 				r.jsonFile("bs -x/bs.json", "bs.json", func(data string) string {
 					var list []bs_domain.BadSmellModel
 					if err := json.Unmarshal([]byte(data), &list); err != nil {
@@ -293,7 +322,7 @@ func oneCliRun(root string, c CliCase) []report {
 			args := []string{"count"}
 			if c.Top > 0 {
 				// the first N rows of the table: a collection that must not depend on the run
-				args = append(args, "-t", fmt.Sprint(c.Top))
+				args = append(args, opt("t", "top", fmt.Sprint(c.Top))...)
 			}
 			out := r.coca(root, nil, args...)
 			r.add("count/stdout", out, rowsSortedBy(tableRows(out), 0))
@@ -386,8 +415,10 @@ func oneCliRun(root string, c CliCase) []report {
 	}
 	if withTests {
 		groups = append(groups, func(r *cliRun) {
-			args := []string{"tbs", "-p", "src"}
-			if c.TbsSort {
+			args := cmdline([]string{"tbs"}, opt("p", "path", "src"))
+			if c.TbsSort && c.LongOpts {
+				args = append(args, "--sort")
+			} else if c.TbsSort {
 				args = append(args, "-s")
 			}
 			out := r.coca(root, nil, args...)
@@ -426,16 +457,26 @@ func oneCliRun(root string, c CliCase) []report {
 	if len(c.Java.Roots) > 0 {
 		rootMethod := c.Java.Roots[0]
 		groups = append(groups, func(r *cliRun) {
-			if c.Lookup {
-				r.coca(root, nil, "call", "-c", rootMethod, "-l")
-			} else {
-				r.coca(root, nil, "call", "-c", rootMethod)
+			args := cmdline([]string{"call"}, opt("c", "className", rootMethod))
+			if c.Lookup && c.LongOpts {
+				args = append(args, "--lookup")
+			} else if c.Lookup {
+				args = append(args, "-l")
 			}
+			if c.Remove {
+				// the package prefix is cut out of the labels of the graph
+				args = append(args, opt("r", "remove", "com.acme.")...)
+			}
+			r.coca(root, nil, args...)
 			r.jsonFile("call/call.dot", "call.dot", func(data string) string {
 				return mustEdges("call graph", data, "digraph G {", "rankdir = LR;")
 			})
 		}, func(r *cliRun) {
-			r.coca(root, nil, "rcall", "-c", rootMethod)
+			args := cmdline([]string{"rcall"}, opt("c", "className", rootMethod))
+			if c.Remove {
+				args = append(args, opt("r", "remove", "com.acme.")...)
+			}
+			r.coca(root, nil, args...)
 			r.jsonFile("rcall/rcall.dot", "rcall.dot", func(data string) string {
 				return mustEdges("reverse call graph", data, "digraph G {")
 			})
@@ -446,6 +487,14 @@ func oneCliRun(root string, c CliCase) []report {
 				}
 				return strings.Join(canonStringListMap(m), "\n")
 			})
+		})
+	}
+	if len(c.GoFiles) > 0 {
+		// the Go plug-in on the Go project of the case (its reports: godeps.json, members.json)
+		groups = append(groups, func(r *cliRun) {
+			out := r.run("coca_go", root, nil, cmdline([]string{"analysis"}, opt("p", "path", "src/goproj"))...)
+			r.add("coca_go analysis/stdout", out, multiset(strings.Split(out, "\n")))
+			r.jsonFile("coca_go analysis/godeps.json", "godeps.json", canonModelFile)
 		})
 	}
 	return append(r.reports, parallel(groups, root)...)
@@ -559,6 +608,9 @@ func checkCli(c CliCase) pbt.Verdict {
 	for _, f := range c.Others {
 		files["src/"+f.Path] = f.Text
 	}
+	for _, f := range c.GoFiles {
+		files["src/goproj/"+f.Path] = f.Text
+	}
 	k := cliReps(c.Reps)
 	for i := 0; i < k; i++ {
 		cli.WriteTree(filepath.Join(root, fmt.Sprintf("run-%d", i)), files)
@@ -595,13 +647,23 @@ func checkCli(c CliCase) pbt.Verdict {
 	if harnessPanic != "" {
 		panic(harnessPanic)
 	}
-	return repeat("cli", k, func(rep int) []report {
+	v := repeat("cli", k, func(rep int) []report {
 		out := runs[rep]
 		if repo != nil {
 			out = append(out, gitCliRun(repo, c)...)
 		}
 		return out
 	})
+	if c.LongOpts {
+		v.Classes = append(v.Classes, "cli/long_option_spellings")
+	}
+	if c.Remove {
+		v.Classes = append(v.Classes, "cli/call_rcall_remove_package")
+	}
+	if len(c.GoFiles) > 0 {
+		v.Classes = append(v.Classes, "cli/with_go_project")
+	}
+	return v
 }
 
 func registerCli() {
